@@ -5,10 +5,10 @@ From IRV Require Import Base.Exn C15.Model C15.ProofsA C15.ProofsB2 C15.ProofsB3
 Import ListNotations.
 Open Scope N_scope.
 
-Theorem fix_post_graph g vx nx vn nn inits m :
+Theorem fix_post_graph g ow vx nx vn nn inits m :
   WF0 vn inits -> closed_run (events_graph g) inits -> NoDup (ev_nodes (events_graph g)) ->
   well_scoped (events_graph g) inits ->
-  let r := fix_graph_names g vx nx vn nn inits m in
+  let r := fix_graph_names g ow vx nx vn nn inits m in
   let s' := fst r in
   snd r = None /\
   (forall v, run_vals (events_graph g) inits v -> exists x, f_vn s' v = Some x /\ x <> []) /\
@@ -19,7 +19,7 @@ Theorem fix_post_graph g vx nx vn nn inits m :
   WF0 (f_vn s') (f_inits s').
 Proof.
   intros W Hc ND Hws r s'.
-  destruct (fix_post_run g vx nx vn nn inits m W Hc ND) as [A [B [C [D [F G]]]]].
+  destruct (fix_post_run g ow vx nx vn nn inits m W Hc ND) as [A [B [C [D [F G]]]]].
   split; [exact A|]. split; [exact B|]. split; [exact C|]. split; [|split; [|exact G]].
   - intros vis h Hn v w Hv Hw Hne.
     destruct (naive_scopes_cover (dv inits) g vis h Hn) as [R [HR Hinc]].
